@@ -39,6 +39,23 @@ def _as_keywords(fn, a, kw):
 
 
 _defcache = {}
+_doc_defaults = []
+
+
+class _Other:  # a default that is neither None nor a bool / number / string: never equal to an argument
+    pass
+
+
+def _documented_defaults():
+    if not _doc_defaults:
+        import json
+        import os
+
+        try:
+            _doc_defaults.append(json.load(open(os.path.join(os.path.dirname(os.path.dirname(os.path.abspath(__file__))), "models", "api_defaults.json"))))
+        except (OSError, ValueError):
+            _doc_defaults.append({})
+    return _doc_defaults[0]
 
 
 def _drop_defaults(fn, a):
@@ -48,6 +65,17 @@ def _drop_defaults(fn, a):
 
     key = getattr(fn, "__func__", fn)
     defs = _defcache.get(key)
+    if defs is None:
+        # the documented defaults are those of the pinned tree (models/api_defaults.json, tools/mkdefaults.py), not whatever the live
+        # signature says today; bound methods: the table row includes self
+        row = _documented_defaults().get("%s.%s" % (getattr(key, "__module__", "?"), getattr(key, "__qualname__", "?")))
+        if row is not None:
+            import inspect as _i0
+
+            vals = [(_i0.Parameter.empty if "empty" in c else (c["v"] if "v" in c else _Other)) for c in row]
+            if hasattr(fn, "__self__") and fn.__self__ is not None and not isinstance(fn.__self__, type(_i0)):
+                vals = vals[1:]
+            defs = _defcache[key] = vals
     if defs is None:
         try:
             ps = list(inspect.signature(fn).parameters.values())
